@@ -79,7 +79,12 @@ func VerifC19Empty() {
 	t := c19Templates[nd.Choice(3)]
 	b := Bindings{"x": 3, "a": []any{1, 2}}
 	o1, e1 := NewEngine().ParseAndRenderString(t, b)
-	o2, e2 := NewEngine().Delims(use[0], use[1], use[2], use[3]).ParseAndRenderString(c19Respell(t, spell), b)
+	e := NewEngine()
+	if nd.Bool() {
+		// an engine configured before: the last call decides, an empty string still means the default
+		e.Delims("<<", ">>", "<%", "%>")
+	}
+	o2, e2 := e.Delims(use[0], use[1], use[2], use[3]).ParseAndRenderString(c19Respell(t, spell), b)
 	nd.Assert(e1 == nil && e2 == nil, "empty-delimiter-no-error")
 	nd.Assert(o1 == o2, "empty-delimiter-selects-default")
 	nd.Reach("C19.empty")
